@@ -1,7 +1,9 @@
 #!/bin/sh
-# usage: harness/import_seed.sh Cxx N   -> seeded/Cxx-N/{patch.diff,demo.py,notes.md}
-HERE="$(cd "$(dirname "$0")/.." && pwd)"; id=$1; n=$2; d="$HERE/seeded/$id-$n"; mkdir -p "$d"
+# usage: harness/import_seed.sh Cxx N   -> seeded/Cxx-<next free index>/{patch.diff,demo.py,notes.md}; prints the directory
+HERE="$(cd "$(dirname "$0")/.." && pwd)"; id=$1; n=$2
+k=1; while [ -d "$HERE/seeded/$id-$k" ]; do k=$((k+1)); done
+d="$HERE/seeded/$id-$k"; mkdir -p "$d"
 cp /var/tmp/seed/$id-out/patch$n.diff "$d/patch.diff"; cp /var/tmp/seed/$id-out/demo$n.py "$d/demo.py"
 cp /var/tmp/seed/$id-out/notes.md "$d/notes.md" 2>/dev/null
-[ -f "$d/meta.json" ] || printf '{"property": "%s", "needs": "", "ran": "", "caught_by": ""}\n' "$id" > "$d/meta.json"
+printf '{"property": "%s", "needs": "", "ran": "", "caught_by": ""}\n' "$id" > "$d/meta.json"
 echo "$d"
